@@ -226,3 +226,38 @@ B('C11.fixed-mpint-pad-side', ['C11'], [(P + 'common/parse.py', "        if self
 B('C08.keytag-little-endian', ['C08'], [(P + 'dnsrec/record.py', "parser = ParserBinary(self.compose(), byte_order=ByteOrder.BIG_ENDIAN)", "parser = ParserBinary(self.compose(), byte_order=ByteOrder.LITTLE_ENDIAN)")], mention=['C08.R3'])
 B('C08.keytag-full-fold', ['C08'], [(P + 'dnsrec/record.py', "        key_tag += (key_tag >> 16) & 0xffff\n        return key_tag & 0xffff", "        while key_tag >> 16:\n            key_tag = (key_tag & 0xffff) + (key_tag >> 16)\n        return key_tag")], mention=['C08.R3'])
 N('benign.keytag-rewritten', [(P + 'dnsrec/record.py', "        key_tag += (key_tag >> 16) & 0xffff\n        return key_tag & 0xffff", "        key_tag = key_tag + ((key_tag >> 16) & 0xffff)\n        return key_tag % 0x10000")])
+
+# ---------------------------------------------------------------- variants for the rules added after the second seeded round
+B('C19.cache-grows', ['C19'], [(P + 'common/base.py', "        variant_types = []\n\n        for variant_type_list in list(cls._get_variants().values()) + list(cls._get_registered_variants().values()):\n            variant_types.extend(variant_type_list)",
+                                "        variant_types = cls._get_registered_variants().setdefault(None, [])\n\n        for variant_type_list in list(cls._get_variants().values()):\n            variant_types.extend(variant_type_list)")], props=['C19'], mention=['C19.R5'])
+B('C04.swallow-not-enough-data', ['C04'], [(P + 'common/parse.py', "        except NotEnoughData:\n            self._parsed_length -= parsed_length\n            raise", "        except NotEnoughData:\n            self._parsed_length -= parsed_length\n            raise InvalidValue(value, type(self), name)")], mention=['C04.R5'])
+B('C14.runtime-template', ['C14'], [(P + 'common/base.py', "            result += '{indent}* {name}'.format(indent=indent, name=name_dict[name])", "            result += (indent + '* ' + name_dict[name] + '{}').format('')")], mention=['C14.R5'])
+B('C03.nested-length-dropped', ['C03'], [(P + 'common/parse.py', "        parsed_object, value_length = variant.parse(self._parsable[self._parsed_length:])\n\n        self._parsed_values[name] = parsed_object\n        self._parsed_length += value_length",
+                                          "        parsed_object, value_length = variant.parse(self._parsable[self._parsed_length:])\n\n        self._parsed_values[name] = parsed_object\n        self._parsed_length += value_length\n\n    def parse_variant_exact(self, name, parsable_class):\n        self._parsed_values[name] = parsable_class.parse_immutable(self._parsable[self._parsed_length:])[0]\n        self._parsed_length = len(self._parsable)")], mention=['C03.R6'])
+B('C02.unbounded-epoch', ['C02'], [(P + 'common/parse.py', "datetime.datetime.fromtimestamp(0x00000000ffffffff & value, dateutil.tz.UTC)", "datetime.datetime.fromtimestamp(value, dateutil.tz.UTC)")])
+B('C02.ldap-lazy-decode', ['C02'], [(P + 'tls/ldap.py', "            # ensure recursive parsing\n            message.native  # pylint: disable=pointless-statement\n", "")], mention=['eager-decode'])
+B('C02.table-column-deref', ['C02'], [(P + 'dnsrec/record.py', "        if not isinstance(dnssec_algorithm.value.algorithm, Signature):\n            raise InvalidValue(dnssec_algorithm.value.algorithm, cls, 'algorithm_type')\n\n", "")], mention=['C02.R5'])
+B('C10.lenient-alpn', ['C10'], [(P + 'common/base.py', "code = six.ensure_text(code_bytes, cls.get_encoding())", "code = six.ensure_text(code_bytes, cls.get_encoding(), 'ignore')")], mention=['C10.R7'])
+B('C12.responder-id-floor', ['C12', 'C06'], [(P + 'tls/extension.py', "class TlsCertificateStatusRequestResponderId(Opaque):\n    @classmethod\n    def get_param(cls):\n        return OpaqueParam(\n            min_byte_num=1,", "class TlsCertificateStatusRequestResponderId(Opaque):\n    @classmethod\n    def get_param(cls):\n        return OpaqueParam(\n            min_byte_num=0,")])
+B('C17.inherited-le', ['C17'], [(P + 'common/base.py', "    def _asdict(self):\n        return self.identifier\n", "    def __le__(self, other):\n        return self.compose() <= other.compose()\n\n    def _asdict(self):\n        return self.identifier\n")], mention=['C17.R3'])
+B('C09.empty-nul-string', ['C09'], [(P + 'common/parse.py', "                if value == 0\n            ]))", "                if value == 0 and i\n            ]))")], mention=['C09.R7'])
+B('C08.rsa-exponent-boundary', ['C08'], [(P + 'dnsrec/record.py', "        if exponent_length > 255:", "        if exponent_length >= 255:")], mention=['C08.R5'])
+B('C18.set-cookie-separator-run', ['C18'], [(P + 'httpx/header.py', "            parser.parse_separator(';')\n        parser.parse_separator(' ', min_length=0)", "            parser.parse_separator(';', 1, 1)\n        parser.parse_separator(' ', min_length=0)")], mention=['C18.R5'])
+B('C18.empty-value-is-absent', ['C18', 'C01', 'C05'], [(P + 'common/field.py', "            composer.compose_string(name)\n            if value is not None:", "            composer.compose_string(name)\n            if value:")], mention=['R4', 'R7', 'R5'])
+B('C19.remove-in-loop', ['C19'], [(P + 'tls/subprotocol.py', "            else:\n                cipher_suites.append(cipher_suite)", "            else:\n                cipher_suites.append(cipher_suite)\n                if cipher_suites.count(cipher_suite) > 1:\n                    cipher_suites.pop()")], props=['C19'], mention=['C19.R6'])
+B('C01.mysql-length-byte', ['C01'], [(P + 'tls/mysql.py', "            auth_plugin_data_len = 8\n            if self.auth_plugin_data_2:\n                auth_plugin_data_len += len(self.auth_plugin_data_2)", "            auth_plugin_data_len = 0\n            if self.auth_plugin_data_2:\n                auth_plugin_data_len = 8 + len(self.auth_plugin_data_2)")], mention=['link'])
+B('C07.version-until-separator', ['C07'], [(P + 'ssh/version.py', "            parser.parse_separator(version_separator)\n            parser.parse_string_by_length('version')", "            parser.parse_separator(version_separator)\n            parser.parse_string_until_separator_or_end('version', version_separator)")], mention=['C07.R7'])
+
+N('benign.variant-types-memoised', [(P + 'common/base.py', "    _REGISTERED_VARIANTS = OrderedDict()\n", "    _REGISTERED_VARIANTS = OrderedDict()\n    _STATIC_VARIANT_TYPES = {}\n"),
+                                   (P + 'common/base.py', "        variant_types = []\n\n        for variant_type_list in list(cls._get_variants().values()) + list(cls._get_registered_variants().values()):\n            variant_types.extend(variant_type_list)",
+                                    "        if cls not in cls._STATIC_VARIANT_TYPES:\n            cls._STATIC_VARIANT_TYPES[cls] = [t for ts in cls._get_variants().values() for t in ts]\n        variant_types = list(cls._STATIC_VARIANT_TYPES[cls])\n\n        for variant_type_list in cls._get_registered_variants().values():\n            variant_types.extend(variant_type_list)")])
+N('benign.bounded-window-by-local', [(P + 'common/parse.py', "        unparsed_bytes = self._parsable[self._parsed_length:self._parsed_length + items_size]\n", "        items_end = self._parsed_length + items_size\n        unparsed_bytes = self._parsable[self._parsed_length:items_end]\n")])
+N('benign.explicit-le', [(P + 'tls/version.py', "    def __lt__(self, other):\n        if self.major == other.major:", "    def __le__(self, other):\n        return self < other or self == other\n\n    def __lt__(self, other):\n        if self.major == other.major:")])
+N('benign.nul-string-by-find', [(P + 'common/parse.py', "        try:\n            length = next(iter([\n                i\n                for i, value in enumerate(six.iterbytes(self._parsable[self._parsed_length:]))\n                if value == 0\n            ]))\n        except StopIteration as e:\n            six.raise_from(InvalidValue(self._parsable[self._parsed_length:], str, name), e)\n",
+                                 "        length = bytes(self._parsable).find(b'\\x00', self._parsed_length) - self._parsed_length\n        if length < 0:\n            raise InvalidValue(self._parsable[self._parsed_length:], str, name)\n")])
+N('benign.rsa-exponent-branch-order', [(P + 'dnsrec/record.py', "        if exponent_length > 255:\n            key_composer.compose_numeric(0, 1)\n            key_composer.compose_numeric(exponent_length, 2)\n        else:\n            key_composer.compose_numeric(exponent_length, 1)",
+                                         "        if exponent_length <= 0xff:\n            key_composer.compose_numeric(exponent_length, 1)\n        else:\n            key_composer.compose_numeric(0, 1)\n            key_composer.compose_numeric(exponent_length, 2)")])
+N('benign.pair-composer-restructured', [(P + 'common/field.py', "        composer.compose_string(self.name)\n        if self.value is not None:\n            composer.compose_separator(self.get_separator())\n            if self.quoted:\n                composer.compose_separator('\"')\n            composer.compose_string(self.value)\n            if self.quoted:\n                composer.compose_separator('\"')\n",
+                                          "        composer.compose_string(self.name)\n        if self.value is None:\n            return composer.composed\n\n        quote = '\"' if self.quoted else ''\n        composer.compose_separator(self.get_separator())\n        composer.compose_string(quote + self.value + quote)\n")])
+N('benign.epoch-mask-operand-order', [(P + 'common/parse.py', "datetime.datetime.fromtimestamp(0x00000000ffffffff & value, dateutil.tz.UTC)", "datetime.datetime.fromtimestamp(value & 0xffffffff, dateutil.tz.UTC)")])
+N('benign.reraise-explicit', [(P + 'common/parse.py', "        except NotEnoughData:\n            self._parsed_length -= parsed_length\n            raise", "        except NotEnoughData as e:\n            self._parsed_length -= parsed_length\n            raise e")])
